@@ -167,6 +167,25 @@ def _refuses_nan(repo, f, param, depth=0):
             seen.append('assert ' + ast.unparse(n.test))
             if nan_value(n.test, names, temps) is False:
                 return True, seen
+    # if <accepting test>: return ...   followed by an unconditional raise: the raise is the refusal of `not test`
+    for blk_owner in walk_local(f.node):
+        for fld in ('body', 'orelse', 'finalbody'):
+            blk = getattr(blk_owner, fld, None)
+            if not isinstance(blk, list):
+                continue
+            for i_, st_ in enumerate(blk[:-1]):
+                if isinstance(st_, ast.If) and not st_.orelse and st_.body and isinstance(st_.body[-1], ast.Return) and mentions(st_.test) \
+                        and isinstance(blk[i_ + 1], ast.Raise):
+                    seen.append('not (%s)' % ast.unparse(st_.test))
+                    if nan_value(st_.test, names, temps) is False:
+                        return True, seen
+    body0 = f.node.body
+    for i_, st_ in enumerate(body0[:-1]):
+        if isinstance(st_, ast.If) and not st_.orelse and st_.body and isinstance(st_.body[-1], ast.Return) and mentions(st_.test) \
+                and isinstance(body0[i_ + 1], ast.Raise):
+            seen.append('not (%s)' % ast.unparse(st_.test))
+            if nan_value(st_.test, names, temps) is False:
+                return True, seen
     if depth < 3:
         for n in walk_local(f.node):
             if not isinstance(n, ast.Call):
